@@ -344,6 +344,9 @@ def unused_elements(vr, d, T):
     for pos, it in enumerate(stream):
         role = roles.get(pos, {}).get("role", f"stream[{pos}]")
         if it[0] == "c":
+            mcol = re.match(r"advice_commitment\[proof \d+\]\[col (\d+)\]", role)
+            if mcol and int(mcol.group(1)) not in {c for c, _ in vr.info["advice_queries"]}:
+                continue   # a column that no gate, lookup or copy constraint refers to has no evaluation to open
             if it[1] not in qcoms:
                 unused.append(f"commitment {role} is opened by no query")
         else:
@@ -378,7 +381,7 @@ def check(run):
     members = family()
     if getattr(run, "only", None):
         members = {k: v for k, v in members.items() if run.only in k} or members
-    run.bounds.append(f"C02/S: {len(members)} circuit shapes (6 boundary members + seeded), k in {{4,5}}, num_proofs <= 2, "
+    run.bounds.append(f"C02/S: {len(members)} circuit shapes (7 boundary members + seeded), k in {{4,5}}, num_proofs <= 2, "
                       "committed instance columns <= 2, plain <= 2, <= 3 phases, gates of degree <= 5, <= 2 lookups, <= 2 trash arguments")
     run.assumptions += ["S: SymCS models commitments as opaque handles (binding of the commitment scheme is not examined)",
                         "S: chi is a fresh variable per absorbed history (Fiat-Shamir hash modelled as injective)"]
